@@ -373,7 +373,17 @@ def shards(tier, seed):
 
 
 def make_device(rng):
-    hb = {"signature": der.make_sig(rng, "normal")[0], "message": rng.randbytes(70),
+    # every signature the device hands out is well-formed DER, of every shape a real
+    # device produces: r and s of 1..33 bytes (minimal-length integers)
+    srng = random.Random(rng.getrandbits(32))
+
+    def fresh_sig():
+        return der.make_sig(srng, srng.choice(["normal", "normal", "short", "min"]))[0]
+
+    def sigs():
+        while True:
+            yield fresh_sig()
+    hb = {"signature": fresh_sig, "message": rng.randbytes(70),
           "tweak": rng.randbytes(32), "pubkey": rng.randbytes(65)}
     dev = SimDevice(platform="ledger", mode=MODE_SIGNER,
                     pubkeys={path_to_binary(p): rng.randbytes(65) for p in ALL_PATHS},
@@ -381,7 +391,7 @@ def make_device(rng):
                                       (1, 2, 3, 5, 0x81, 0x82, 0x84)},
                            "difficulty": 5, "flags": (0, 0, 0)},
                     hb=dict(hb), uihb=dict(hb), sign_policy={"any_path": True},
-                    adv_policy={"any_brother_count": True}, any_path=True)
+                    adv_policy={"any_brother_count": True}, any_path=True, signatures=sigs())
     return dev
 
 
